@@ -208,6 +208,9 @@ func (e *env) build(v *Val) interface{} {
 			return &s
 		}
 		return s
+	case "rv":
+		// a reflect.Value operand: printed like the value it holds
+		return reflect.ValueOf(e.build(child(v)))
 	case "arrn":
 		// a value of a struct type made with reflect.StructOf: a distinct Go
 		// type for every n, for type diversity (per-type caches in the code
